@@ -425,11 +425,11 @@ class ExtGen:
       self.note("with_tags")
       return rng.choice([f"l2.Ka(p=wt.with_tags({self.atom()}, l2.TagA))",
                          f"l2.fa(a=wt.with_tags({sub()}, [l2.TagA, l2.TagB]), b={sub()})"])
-    if r < 0.80:
+    if r < 0.77:
       self.note("functools.partial")
       return rng.choice([f"functools.partial(l2.fa, {sub()})", f"functools.partial(l2.Ka, q={sub()})",
                          f"functools.partial(l2.fg, {sub()}, w={sub()})"])
-    if r < 0.83 and self.partial_vars:
+    if r < 0.80 and self.partial_vars:
       # a partial over a partial held in a local (which is also used on its own elsewhere)
       self.note("chained-partial")
       pv = rng.choice(self.partial_vars)
